@@ -14,7 +14,7 @@ ANCHORS = [('aes.py', 'AES.keyschedule'), ('aes.py', 'AES.enc'), ('aes.py', 'AES
            ('serpent.py', 'Serpent.__init__'), ('serpent.py', 'Serpent.enc'), ('serpent.py', 'Serpent.dec'), ('serpent.py', '_keysched'),
            ('serpent.py', '_S'), ('serpent.py', '_Sinv'), ('serpent.py', '_L'), ('serpent.py', '_Linv'),
            ('threefish.py', 'Threefish.__init__'), ('threefish.py', 'Threefish.enc'), ('threefish.py', 'Threefish.dec')]
-REQUIRED = ['enc==standard', 'dec==standard', 'wrong-size-rejected', 'gmul==GF(2^8)', 'block-length']
+REQUIRED = ['siblings:enc/dec==standard', 'enc==standard', 'dec==standard', 'wrong-size-rejected', 'gmul==GF(2^8)', 'block-length']
 NSHARDS = 14
 SAN = {'quick': (2, 60), 'thorough': (2, 60)}
 
@@ -133,6 +133,36 @@ def cipher_cases(tier, rng):
                 for tw in ('t0', 'tmax', 'tmix', 'trand'):
                     yield {'k': 'cipher', 'c': c, 'kp': kw, 'tp': tw, 'bp': 'ones' if tw == 'tmax' else 'rand'}
 
+def sibling_cases(tier):
+    for fam in ('aes-zero-extended-keys', 'aes-zero-keys', 'aes-mixed', 'threefish-sizes', 'serpent-key-lengths', 'des-family', 'all-ciphers'):
+        for j in range(6 if tier == 'quick' else 60):
+            yield {'k': 'siblings', 'fam': fam, 'j': j}
+
+def sibling_specs(case, rng):
+    """[(name, cipher id, K, T, kbits)] for a family of simultaneously alive cipher objects"""
+    fam = case['fam']
+    R = rng.randbytes
+    if fam == 'aes-zero-extended-keys':
+        K = R(16) if case['j'] % 2 else R(8) + bytes(8)
+        return [('AES-128', 'aes128', K, None, None), ('AES-192', 'aes192', K + bytes(8), None, None), ('AES-256', 'aes256', K + bytes(16), None, None)]
+    if fam == 'aes-zero-keys':
+        return [('AES-128(0)', 'aes128', bytes(16), None, None), ('AES-192(0)', 'aes192', bytes(24), None, None), ('AES-256(0)', 'aes256', bytes(32), None, None)]
+    if fam == 'aes-mixed':
+        K = R(32)
+        return [('AES-128', 'aes128', K[:16], None, None), ('AES-192', 'aes192', K[:24], None, None), ('AES-256', 'aes256', K, None, None), ('AES-128b', 'aes128', K[16:], None, None)]
+    if fam == 'threefish-sizes':
+        T = R(16)
+        return [('TF-256', 'tf256', R(32), T, None), ('TF-512', 'tf512', R(64), T, None), ('TF-1024', 'tf1024', R(128), R(16), None), ('TF-256b', 'tf256', R(32), R(16), None)]
+    if fam == 'serpent-key-lengths':
+        K = R(32)
+        return [('Serpent-%d' % n, 'serpent', K[:n], None, None) for n in (16, 24, 32, 5, 31)]
+    if fam == 'des-family':
+        K = R(24)
+        return [('DES-k1', 'des', K[:8], None, None), ('DES-k2', 'des', K[8:16], None, None), ('TDEA-3', 'tdea3', K, None, None), ('TDEA-s16', 'tdea-s16', K[:16], None, None), ('TDEA-1', 'tdea1', K[:8], None, None)]
+    K = R(128)
+    return [('AES-256', 'aes256', K[:32], None, None), ('DES', 'des', K[:8], None, None), ('Serpent-32', 'serpent', K[:32], None, None), ('TF-512', 'tf512', K[:64], K[64:80], None),
+            ('TDEA-s24', 'tdea-s24', K[:24], None, None)]
+
 def material(case, rng):
     """(K, T, kbits) for a cipher case"""
     c = case['c']; kl = keylen(c, case); kp = case['kp']
@@ -155,6 +185,8 @@ def material(case, rng):
 
 def cases(tier, rng):
     for x in cipher_cases(tier, rng):
+        yield x
+    for x in sibling_cases(tier):
         yield x
     for a in range(0, 256, 8):
         yield {'k': 'gmul', 'lo': a, 'hi': a + 8}
@@ -214,6 +246,17 @@ def run(case, ctx, rng):
             # keys differing only in the (ignored) parity bits compute the same function
             K2 = bytes(b ^ 1 if (case['j'] >> (i % 6)) & 1 else b for i, b in enumerate(K))
             ctx.eq('des-parity-bits-ignored', call(lambda: build(c, K2).enc(B)), e, K=K, K2=K2)
+    elif k == 'siblings':
+        from vmon.core import siblings
+        ctx.cls(('siblings', case['fam'], case['j'] % 3))
+        specs = []
+        for name, c, K, T, kb in sibling_specs(case, rng):
+            n = blocklen(c); B1 = rng.randbytes(n); B2 = rng.randbytes(n)
+            specs.append((name, (lambda c=c, K=K, T=T, kb=kb: build(c, K, T, kb)),
+                          [('enc(B1)', (lambda o, B=B1: o.enc(B)), ref(c, K, T, B1, False, kb)), ('dec(B1)', (lambda o, B=B1: o.dec(B)), ref(c, K, T, B1, True, kb)),
+                           ('enc(B2)', (lambda o, B=B2: o.enc(B)), ref(c, K, T, B2, False, kb)), ('dec(B2)', (lambda o, B=B2: o.dec(B)), ref(c, K, T, B2, True, kb))]))
+        late = specs.pop() if len(specs) > 3 else None
+        siblings(ctx, rng, 'siblings:enc/dec==standard', specs, late=late, family=case['fam'])
     elif k == 'gmul':
         from crysp.aes import gmul
         ctx.cls(('gmul', case['lo']))
@@ -263,18 +306,30 @@ def run_reject(case, ctx, rng):
     def expect_refusal(f, **det):
         r = call(f)
         ctx.check('wrong-size-rejected', is_exc(r), r, 'an exception (the size is not defined by the algorithm)', what=w, n=n, **det)
+    def then_still_standard(c, K, T, obj, bad, op):
+        # a refused block must leave the object as it was: the next valid call still matches the standard
+        B = R(blocklen(c))
+        call(getattr(obj, op), bad)
+        ctx.eq('after-refusal:enc==standard', call(obj.enc, B), ref(c, K, T, B, False), what=w, refused=op, n=n)
+        ctx.eq('after-refusal:dec==standard', call(obj.dec, B), ref(c, K, T, B, True), what=w, refused=op, n=n)
     if w == 'aes-key': expect_refusal(lambda: AES(R(n)).enc(R(16)))
     elif w == 'aes-block':
         K = R(case['kl']); B = R(n)
         expect_refusal(lambda: AES(K).enc(B), op='enc', kl=case['kl'])
         expect_refusal(lambda: AES(K).dec(B), op='dec', kl=case['kl'])
+        for op in ('enc', 'dec'):
+            then_still_standard('aes%d' % (8 * case['kl']), K, None, AES(K), B, op)
     elif w == 'des-key': expect_refusal(lambda: DES(R(n)).enc(R(8)))
     elif w == 'des-block':
         K = R(8); B = R(n)
         expect_refusal(lambda: DES(K).enc(B), op='enc'); expect_refusal(lambda: DES(K).dec(B), op='dec')
+        for op in ('enc', 'dec'):
+            then_still_standard('des', K, None, DES(K), B, op)
     elif w == 'tdea-block':
         K = R(24); B = R(n)
         expect_refusal(lambda: TDEA(K[:8], K[8:16], K[16:]).enc(B), op='enc'); expect_refusal(lambda: TDEA(K[:8], K[8:16], K[16:]).dec(B), op='dec')
+        for op in ('enc', 'dec'):
+            then_still_standard('tdea3', K, None, TDEA(K[:8], K[8:16], K[16:]), B, op)
     elif w == 'tdea-key-string': expect_refusal(lambda: TDEA(R(n)).enc(R(8)))
     elif w == 'tdea-mixed':
         f = case['form']
@@ -287,11 +342,15 @@ def run_reject(case, ctx, rng):
     elif w == 'serpent-block':
         K = R(16); B = R(n)
         expect_refusal(lambda: Serpent(K).enc(B), op='enc'); expect_refusal(lambda: Serpent(K).dec(B), op='dec')
+        for op in ('enc', 'dec'):
+            then_still_standard('serpent', K, None, Serpent(K), B, op)
     elif w == 'tf-key': expect_refusal(lambda: Threefish(R(n), R(16)).enc(R(max(n, 1))))
     elif w == 'tf-tweak': expect_refusal(lambda: Threefish(R(32), R(n)).enc(R(32)))
     elif w == 'tf-block':
         K = R(case['kl']); T = R(16); B = R(n)
         expect_refusal(lambda: Threefish(K, T).enc(B), op='enc', kl=case['kl']); expect_refusal(lambda: Threefish(K, T).dec(B), op='dec', kl=case['kl'])
+        for op in ('enc', 'dec'):
+            then_still_standard('tf%d' % (8 * case['kl']), K, T, Threefish(K, T), B, op)
 
 def classify(case, fail):
     return None
